@@ -78,7 +78,9 @@ def decodeChunk (H : Bytes → Bytes) (decomp : Nat → Bytes → Nat → Option
       | some (algo, _) => decomp algo stored d.sourceSize
       | none => some stored
   raw.bind fun chunk =>
-    if hashTruncate (H chunk) d.checksum.length = d.checksum then some chunk else none
+    -- a chunk that is not exactly as large as declared is an error (F19 repair, `Gen.chunkLengthChecked`)
+    if Gen.chunkLengthChecked = true ∧ chunk.length ≠ d.sourceSize then none
+    else if hashTruncate (H chunk) d.checksum.length = d.checksum then some chunk else none
 
 /-- `clone_from_archive`: fetch what the clone index still lacks, decode, verify, feed.
 `items` is what the reader's stream yields for the requested list (`none` = an error item; the
@@ -138,7 +140,10 @@ def Clone.run (H : Bytes → Bytes) (decomp : Nat → Bytes → Nat → Option B
           | some w => ⟨.err w, st3.file, st3.log, reqs⟩
           | none =>
             let out := if opts.blockDev then st3.file else setLen st3.file a.sourceTotalSize
-            if opts.verifyOutput ∧ hashTruncate (H out) a.sourceChecksum.length ≠ a.sourceChecksum then
+            -- `--verify-output` hashes the first `source_total_size` bytes (F17 repair,
+            -- `Gen.verifyHashesSourceSizeOnly`): a block device may be longer than the source
+            let hashed := if Gen.verifyHashesSourceSizeOnly then out.take a.sourceTotalSize else out
+            if opts.verifyOutput ∧ hashTruncate (H hashed) a.sourceChecksum.length ≠ a.sourceChecksum then
               ⟨.err "checksum mismatch", out, st3.log, reqs⟩
             else ⟨.ok, out, st3.log, reqs⟩
 
